@@ -45,7 +45,7 @@ class Hang(Exception):
 # --------------------------------------------------------------------------------------
 class Scenario:
     def __init__(self, aggs, calls, init="absent", prior=(), normal_exit=True, same_dir=True, name="", out_names=None,
-                 workers="threads"):
+                 workers="threads", split_writes=False):
         self.aggs = list(aggs)                  # ["A"] / ["A", "B"]
         self.calls = [dict(c) for c in calls]   # {"agg", "kind": "eval"|"stat", "subj"}
         self.init = init                        # "absent" | "empty" | "header" | "rows"
@@ -55,6 +55,9 @@ class Scenario:
         self.name = name
         self.out_names = dict(out_names or {})     # aggregator id -> file name of its output file
         self.workers = workers                     # "threads" | "processes": how the calls of a session run
+        # environment: a data row reaches the output file in two pieces (as a long row does through a
+        # buffered writer); between the pieces the file ends with a torn line and everybody may run
+        self.split_writes = bool(split_writes)
 
     def subjects(self, agg):
         return [c["subj"] for c in self.calls if c["agg"] == agg and c["kind"] == "eval"]
@@ -181,15 +184,25 @@ def fresh_like(lock):
 
 
 class FileW:
+    split = False          # set by Wrappers.install from the scenario
+
     def __init__(self, f, which, mode, path):
         self._f, self._which, self._mode, self._path = f, which, mode, path
         self._read_reported = False
         self._closed = False
+        self._pending: list[str] = []
 
     def _report_read(self):
         if not self._read_reported:
             self._read_reported = True
             _yield("read_" + self._which, self._path)
+            if self._which == "out":
+                # what this caller is about to see (nobody else runs before its next yield point)
+                try:
+                    with open(self._path, "r", encoding="utf8", newline="") as g:
+                        _tl.last_read_out = g.read()
+                except OSError:
+                    _tl.last_read_out = None
 
     def __iter__(self):
         self._report_read()
@@ -208,15 +221,21 @@ class FileW:
         return self._f.readlines(*a)
 
     def write(self, s):
-        return self._f.write(s)          # buffered: reaches the file at close (stuttering step)
+        self._pending.append(s)          # buffered: reaches the file at flush / close
+        return len(s)
+
+    def _drain(self):
+        data, self._pending = "".join(self._pending), []
+        return data
 
     def flush(self):
         # an explicit flush makes what was written so far visible to every other caller (and
         # durable across a kill): a yield point of its own.  The shipped code never flushes - a row
         # reaches the file at close, as one write.
         if self._mode[0] in "aw" and not self._closed:
+            _yield("flush_" + self._which, self._path)         # granted: what was written so far goes out
+            self._f.write(self._drain())
             self._f.flush()
-            _yield("flush_" + self._which, self._path)
         return None
 
     def close(self):
@@ -224,7 +243,16 @@ class FileW:
             return
         self._closed = True
         if self._mode[0] in "aw":
+            data = self._drain()
+            if FileW.split and self._which == "out" and data.count("\n") == 1 and not data.startswith("subject_name") and len(data) >= 4:
+                # a data row in two pieces: the first half is in the file (torn line) when the others run
+                k = max(data.index("\t") + 1 if "\t" in data else 1, len(data) // 2)
+                _yield("part_" + self._which, self._path)      # granted: the first piece goes out
+                self._f.write(data[:k])
+                self._f.flush()
+                data = data[k:]
             _yield("close_a_" + self._which, self._path)
+            self._f.write(data)
         self._f.close()
 
     def __enter__(self):
@@ -259,6 +287,7 @@ class Wrappers:
         import panoptica.panoptica_statistics as ps
         w = self
         real_open = builtins.open
+        FileW.split = bool(getattr(self, "split_writes", False))
 
         def open_w(path, mode="r", *a, **k):
             if not w.tracked(path):
@@ -335,6 +364,7 @@ def _child(scn: Scenario, out_paths: dict, conns: dict, use_real_pool: bool):
         drive.use_serial_pool()
     import panoptica.panoptica_aggregator as pa
     w = Wrappers(out_paths.values())
+    w.split_writes = scn.split_writes
     w.install()
     _tl.conn = conns[MAIN]
     try:
@@ -358,7 +388,12 @@ def _child(scn: Scenario, out_paths: dict, conns: dict, use_real_pool: bool):
                         info = list(st.subjectnames)
                     except IndexError:
                         # a file without any row yet: from_file cannot build an object (observation
-                        # recorded in DESIGN 9, outside the listed properties) - an empty snapshot
+                        # recorded in DESIGN 9, outside the listed properties) - an empty snapshot.
+                        # Only that: an IndexError on a file in which this caller saw a row (or a torn
+                        # line) is a failed call.
+                        seen = getattr(_tl, "last_read_out", None)
+                        if seen is not None and (seen.count("\n") > 1 or not seen.endswith("\n")) and seen != "":
+                            raise
                         info = []
                 status = "ok"
             except BaseException as e:  # noqa: BLE001
@@ -465,7 +500,7 @@ class SessionRun:
                     else:
                         call = self.scn.calls[a - 1]
                         if call["kind"] == "stat":
-                            self.snaps.append({"out": "out_" + call["agg"], "rows": list(msg[2] or []), "status": msg[1]})
+                            self.snaps.append({"out": "out_" + call["agg"], "rows": list(msg[2] or []), "status": msg[1], "actor": a})
                         # a lock held by a thread that died with an exception inside "with" was released through rel_*
                         if all(self.state[x] == "done" for x in self.actors[1:]) and self.state[MAIN] == "joinwait":
                             self.state[MAIN] = "running"
@@ -587,7 +622,11 @@ def read_lines(path: Path, header: str, rows: dict, is_out: bool):
         else:
             out.append(first)
     if tail:
-        out.append("TORN:" + tail[:20])
+        first = _first_cell(tail)
+        if is_out and first in rows and rows[first].startswith(tail) and "\t" in tail:
+            out.append("~" + first)              # the first piece of the row of a known subject (Aggregator.Torn)
+        else:
+            out.append("TORN:" + tail[:20])
     return {"ex": True, "ls": out}
 
 
@@ -652,6 +691,8 @@ class History:
             self.events.append({"p": MAIN, "op": "crash" if self.last_killed else "restart", "session_marker": True})
         run = SessionRun(self.scn, self.out_paths, self.header, self.rows, self.use_real_pool)
         step = 0
+        midwrite: dict = {}
+        last_read: dict = {}
         try:
             while not run.finished():
                 if kill_at is not None and step == kill_at:
@@ -682,7 +723,22 @@ class History:
                             agg = self.scn.calls[a - 1]["agg"] if a != MAIN else self._ctor_agg(run)
                             self.buf_paths.setdefault(agg, set()).add(path)
                 files, bufs = self.snapshot()
-                self.events.append({"p": a, "op": op, "files": files, "bufs": bufs, "snaps": list(self.snaps) + list(run.snaps),
+                # which output files are between the two pieces of a row (split-write environment), and
+                # which complete rows a statistics call had in front of it when it read the file
+                if a != MAIN:
+                    out_a = "out_" + self.scn.calls[a - 1]["agg"]
+                    if op == "part_out":
+                        midwrite[a] = out_a
+                    elif op == "close_a_out":
+                        midwrite.pop(a, None)
+                    elif op == "read_out":
+                        last_read[a] = [x for x in files.get(out_a, {"ls": []})["ls"] if not (x.startswith("~") or x.startswith("TORN:"))]
+                for sn in run.snaps:
+                    if "seen" not in sn:
+                        # (no read observed - the file was read some other way: no constraint)
+                        sn["seen"] = list(last_read[sn.get("actor")]) if sn.get("actor") in last_read else list(sn["rows"])
+                self.events.append({"p": a, "op": op, "files": files, "bufs": bufs,
+                                    "snaps": [dict(x) for x in list(self.snaps) + list(run.snaps)], "mid": sorted(set(midwrite.values())),
                                     "failed": len([s for a_, s in run.status.items() if a_ != MAIN and s.startswith("err")])})
                 step += 1
                 if step > max_steps:
@@ -757,8 +813,9 @@ class History:
         for i, ev in enumerate(self.events):
             if ev.get("session_marker"):
                 continue
-            evs.append({"files": ev["files"], "snaps": [s for s in ev["snaps"] if s["status"] == "ok"] or [],
-                        "failed": ev["failed"]})
+            evs.append({"files": ev["files"],
+                        "snaps": [{"out": s["out"], "rows": s["rows"], "seen": s.get("seen", s["rows"])} for s in ev["snaps"] if s["status"] == "ok"] or [],
+                        "mid": ev.get("mid", []), "failed": ev["failed"]})
             idx_map[i + 1] = len(evs)
         ends = [idx_map.get(e, len(evs)) for e in self.ends]
         return {"outs": ["out_" + a for a in self.scn.aggs],
@@ -771,7 +828,8 @@ class History:
         init = {"absent": {"ex": False, "ls": []}, "empty": {"ex": True, "ls": []}, "header": {"ex": True, "ls": ["H"]},
                 "rows": {"ex": True, "ls": ["H"] + list(self.scn.prior)}, "foreign": {"ex": True, "ls": ["X", "q"]}}[self.scn.init]
         return {"aggs": self.scn.aggs, "calls": self.scn.calls, "initout": init, "normalexit": self.scn.normal_exit,
-                "headeronempty": header_on_empty, "ownbuffer": own, "headernoclaim": header_no_claim}
+                "headeronempty": header_on_empty, "ownbuffer": own, "headernoclaim": header_no_claim,
+                "splitwrites": self.scn.split_writes}
 
 
 # --------------------------------------------------------------------------------------
